@@ -49,19 +49,25 @@ Qed.
 
 Lemma hop_same_inv : forall h a t xa xt, hop_same h a t xa xt = true ->
   d_kind a = d_kind t /\ x_op xa = x_op xt /\ x_el xa = x_el xt /\ x_ec xa = x_ec xt /\ d_elems a = d_elems t
-  /\ (rigid h (d_kind t) = true -> x_sp xa = x_sp xt /\ d_spec a = d_spec t).
+  /\ x_rep xa = x_rep xt /\ int_width (d_spec a) = int_width (d_spec t)
+  /\ (numeric_kind (d_kind t) = false -> x_sp xa = x_sp xt)
+  /\ (rigid h (d_kind t) = true -> d_spec a = d_spec t).
 Proof.
   intros h a t xa xt H. unfold hop_same in H.
   apply andb_prop in H. destruct H as [H Hs].
+  apply andb_prop in H. destruct H as [H Hi].
+  apply andb_prop in H. destruct H as [H Hw].
+  apply andb_prop in H. destruct H as [H Hrep].
   apply andb_prop in H. destruct H as [H He].
   apply andb_prop in H. destruct H as [H Hc].
   apply andb_prop in H. destruct H as [H Hl].
   apply andb_prop in H. destruct H as [Hk Ho].
   apply eqb_of_true in Hk. apply eqb_of_true in He.
-  apply Z.eqb_eq in Ho. apply Z.eqb_eq in Hl. apply Z.eqb_eq in Hc.
+  apply Z.eqb_eq in Ho. apply Z.eqb_eq in Hl. apply Z.eqb_eq in Hc. apply Z.eqb_eq in Hrep. apply Z.eqb_eq in Hw.
   split; [exact Hk |]. split; [exact Ho |]. split; [exact Hl |]. split; [exact Hc |]. split; [exact He |].
-  intros Hr. rewrite Hr in Hs. cbn in Hs. apply andb_prop in Hs. destruct Hs as [Hs1 Hs2].
-  apply Z.eqb_eq in Hs1. apply eqb_of_true in Hs2. split; assumption.
+  split; [exact Hrep |]. split; [exact Hw |]. split.
+  - intros Hn. rewrite Hn in Hi. cbn in Hi. apply Z.eqb_eq in Hi. exact Hi.
+  - intros Hr. rewrite Hr in Hs. cbn in Hs. apply eqb_of_true in Hs. exact Hs.
 Qed.
 
 Lemma hop_tagged_inv : forall h a t, hop_tagged h a t = true ->
@@ -80,41 +86,49 @@ Theorem alias_chain_invariant : forall X i j path, wf_x X = true -> reaches X i 
   forall a xa, nthZ (t_descrs (xt_tab X)) i = Some a -> nthZ (xt_x X) i = Some xa ->
   exists t xt, nthZ (t_descrs (xt_tab X)) j = Some t /\ nthZ (xt_x X) j = Some xt
     /\ d_kind a = d_kind t /\ x_op xa = x_op xt /\ x_el xa = x_el xt /\ x_ec xa = x_ec xt /\ d_elems a = d_elems t
+    /\ x_rep xa = x_rep xt /\ int_width (d_spec a) = int_width (d_spec t)
     /\ d_tags a = chain_tags path (d_tags t) /\ d_all a = chain_all path (d_all t)
-    /\ (forallb (fun h => rigid h (d_kind t)) path = true -> x_sp xa = x_sp xt /\ d_spec a = d_spec t).
+    /\ (numeric_kind (d_kind t) = false -> x_sp xa = x_sp xt)
+    /\ (forallb (fun h => rigid h (d_kind t)) path = true -> d_spec a = d_spec t).
 Proof.
   intros X i j path W R. induction R as [i | h j path Hin R IH]; intros a xa Ha Hxa.
-  - exists a, xa. cbn. repeat split; auto.
+  - exists a, xa. cbn. repeat (split; [solve [auto] |]). auto.
   - destruct (wf_x_parts X W) as (_ & _ & _ & Hh & _).
     pose proof (forallb_In _ _ _ _ Hh Hin) as Hok.
     destruct (hop_ok_inv X h Hok) as (a' & t' & xa' & xt' & Ea & Et & Exa & Ext & Hs & Ht & _).
     rewrite Ha in Ea. inversion Ea; subst a'. rewrite Hxa in Exa. inversion Exa; subst xa'.
-    destruct (IH t' xt' Et Ext) as (t & xt & Et2 & Ext2 & Kk & Ko & Ke & Kc & Kl & Kt & Kal & Ksp).
-    destruct (hop_same_inv _ _ _ _ _ Hs) as (Jk & Jo & Je & Jc & Jl & Jsp).
+    destruct (IH t' xt' Et Ext) as (t & xt & Et2 & Ext2 & Kk & Ko & Ke & Kc & Kl & Krep & Kw & Kt & Kal & Kid & Ksp).
+    destruct (hop_same_inv _ _ _ _ _ Hs) as (Jk & Jo & Je & Jc & Jl & Jrep & Jw & Jid & Jsp).
     destruct (hop_tagged_inv _ _ _ Ht) as (Jt & Jal).
-    exists t, xt. repeat split; auto; try congruence.
+    exists t, xt.
+    split; [exact Et2 |]. split; [exact Ext2 |]. split; [congruence |]. split; [congruence |]. split; [congruence |].
+    split; [congruence |]. split; [congruence |]. split; [congruence |]. split; [congruence |].
+    split; [| split; [| split]].
     + cbn [chain_tags fold_right]. fold (chain_tags path (d_tags t)). rewrite <- Kt. exact Jt.
     + cbn [chain_all fold_right]. fold (chain_all path (d_all t)). rewrite <- Kal. exact Jal.
-    + cbn [forallb] in H. apply andb_prop in H. destruct H as [Hr Hrest].
-      rewrite <- Kk in Hr. destruct (Jsp Hr) as [J1 J2]. destruct (Ksp Hrest) as [K1 K2]. congruence.
-    + cbn [forallb] in H. apply andb_prop in H. destruct H as [Hr Hrest].
-      rewrite <- Kk in Hr. destruct (Jsp Hr) as [J1 J2]. destruct (Ksp Hrest) as [K1 K2]. congruence.
+    + intros Hn. rewrite <- Kk in Hn. rewrite (Jid Hn). apply Kid. rewrite <- Kk. exact Hn.
+    + intros H. cbn [forallb] in H. apply andb_prop in H. destruct H as [Hr Hrest].
+      rewrite <- Kk in Hr. rewrite (Jsp Hr). apply Ksp. exact Hrest.
 Qed.
 
-(* THE invariant the seeded change C10-5 is about: specifics of a reference descriptor = specifics of its terminal type
-   (same C object, same content), through any number of hops, tagged or not, as long as no hop re-constrains a
-   numeric type *)
+(* THE invariant the seeded change C10-5 is about: specifics of a reference descriptor = specifics of its terminal type,
+   through any number of hops, tagged or not.  For every kind but INTEGER / REAL it is the same C object; its content is
+   the terminal's as long as no hop re-constrains a numeric type; what it says about the C representation is the
+   terminal's always. *)
 Theorem alias_specifics_terminal : forall X i j path a xa t xt, wf_x X = true -> reaches X i j path -> terminal X j ->
   nthZ (t_descrs (xt_tab X)) i = Some a -> nthZ (xt_x X) i = Some xa ->
   nthZ (t_descrs (xt_tab X)) j = Some t -> nthZ (xt_x X) j = Some xt ->
-  forallb (fun h => rigid h (d_kind t)) path = true ->
-  x_sp xa = x_sp xt /\ d_spec a = d_spec t /\ x_op xa = x_op xt /\ d_kind a = d_kind t
-  /\ x_el xa = x_el xt /\ d_elems a = d_elems t.
+  x_op xa = x_op xt /\ d_kind a = d_kind t /\ x_el xa = x_el xt /\ d_elems a = d_elems t
+  /\ x_rep xa = x_rep xt /\ int_width (d_spec a) = int_width (d_spec t)
+  /\ (numeric_kind (d_kind t) = false -> x_sp xa = x_sp xt /\ d_spec a = d_spec t)
+  /\ (forallb (fun h => rigid h (d_kind t)) path = true -> d_spec a = d_spec t).
 Proof.
-  intros X i j path a xa t xt W R _ Ha Hxa Ht Hxt Hr.
-  destruct (alias_chain_invariant X i j path W R a xa Ha Hxa) as (t' & xt' & Et & Ext & Kk & Ko & Ke & _ & Kl & _ & _ & Ksp).
+  intros X i j path a xa t xt W R _ Ha Hxa Ht Hxt.
+  destruct (alias_chain_invariant X i j path W R a xa Ha Hxa) as (t' & xt' & Et & Ext & Kk & Ko & Ke & _ & Kl & Krep & Kw & _ & _ & Kid & Ksp).
   rewrite Ht in Et. inversion Et; subst t'. rewrite Hxt in Ext. inversion Ext; subst xt'.
-  destruct (Ksp Hr). repeat split; auto.
+  repeat (split; [solve [auto] |]). split; [| exact Ksp].
+  intros Hn. split; [exact (Kid Hn) |]. apply Ksp.
+  apply forallb_forall. intros h _. unfold rigid. rewrite Hn. rewrite andb_false_r. reflexivity.
 Qed.
 
 (* ---- the terminal of a reference is unique ---- *)
@@ -191,7 +205,7 @@ Proof.
   { apply nthZ_some. rewrite Hlen. unfold nthZ in Ha. destruct (i <? 0) eqn:E; [discriminate |].
     apply Z.ltb_ge in E. split; [exact E |]. unfold lenZ.
     assert (Z.to_nat i < length (t_descrs (xt_tab X)))%nat by (apply nth_error_Some; congruence). lia. }
-  destruct (alias_chain_invariant X i j path W R a xa Ha Hxa) as (t' & xt' & Et & _ & _ & _ & _ & _ & _ & Kt & Kal & _).
+  destruct (alias_chain_invariant X i j path W R a xa Ha Hxa) as (t' & xt' & Et & _ & _ & _ & _ & _ & _ & _ & _ & Kt & Kal & _).
   rewrite Ht in Et. inversion Et; subst t'.
   repeat split.
   - rewrite Kal. apply chain_all_written.
@@ -241,7 +255,7 @@ Example sample_x : xtable := mkXT
     mkD 4 KBits [12] [12] [] None None SOther 0;
     mkD 5 KSeq [64] [64] [mkM 0 0 16 0 1 None None false false; mkM 0 0 13 0 2 None None false false] None None
         (SSeq [mkT 16 0 0 0; mkT 13 1 0 0] [] 0 0 (-1)) 0 ])
-  [mkX 1 0 1 0; mkX 1 0 1 0; mkX 1 0 1 0; mkX 2 0 2 0; mkX 2 0 2 0; mkX 3 1 3 2]
+  [mkX 1 0 1 0 0; mkX 1 0 1 0 0; mkX 1 0 1 0 0; mkX 2 0 2 0 0; mkX 2 0 2 0 0; mkX 3 1 3 2 0]
   [mkH 1 0 (-1) false false; mkH 2 1 13 true false; mkH 4 3 (-1) false false].
 
 Example sample_x_ok : wf_x sample_x = true.
@@ -249,16 +263,16 @@ Proof. vm_compute. reflexivity. Qed.
 
 (* the alias of the BIT STRING with NULL specifics (compiles; the runtime would treat MyFlags as an OCTET STRING) *)
 Example sample_x_null_specifics : diagnose_x (mkXT (xt_tab sample_x)
-  [mkX 1 0 1 0; mkX 1 0 1 0; mkX 1 0 1 0; mkX 2 0 2 0; mkX 2 0 0 0; mkX 3 1 3 2] (xt_hops sample_x)) = [(4, 11); (4, 8)].
+  [mkX 1 0 1 0 0; mkX 1 0 1 0 0; mkX 1 0 1 0 0; mkX 2 0 2 0 0; mkX 2 0 0 0 0; mkX 3 1 3 2 0] (xt_hops sample_x)) = [(4, 11); (4, 8)].
 Proof. vm_compute. reflexivity. Qed.
 
 (* the alias naming ANOTHER type's record (what `&asn_SPC_<ReferencedType>_specs` would be if it existed) *)
 Example sample_x_other_specifics : diagnose_x (mkXT (xt_tab sample_x)
-  [mkX 1 0 1 0; mkX 1 0 4 0; mkX 1 0 1 0; mkX 2 0 2 0; mkX 2 0 2 0; mkX 3 1 3 2] (xt_hops sample_x)) = [(1, 8); (2, 8)].
+  [mkX 1 0 1 0 0; mkX 1 0 4 0 0; mkX 1 0 1 0 0; mkX 2 0 2 0 0; mkX 2 0 2 0 0; mkX 3 1 3 2 0] (xt_hops sample_x)) = [(1, 8); (2, 8)].
 Proof. vm_compute. reflexivity. Qed.
 
 (* the tag written at a hop dropped from the vectors *)
 Example sample_x_lost_tag : diagnose_x (mkXT
   (mkTab true true [ mkD 0 KAny [] [] [] None None SOther 0; mkD 1 KAny [] [] [] None None SOther 0 ])
-  [mkX 1 0 1 0; mkX 1 0 1 0] [mkH 1 0 6 false false]) = [(1, 9)].
+  [mkX 1 0 1 0 0; mkX 1 0 1 0 0] [mkH 1 0 6 false false]) = [(1, 9)].
 Proof. vm_compute. reflexivity. Qed.
